@@ -49,6 +49,8 @@ package bastion
 //@   let updated  := n_upd == old(n_upd) + 1
 //@   requires a != nil && a.w != nil && a.limiter != nil && a.logs != nil && r != nil && r.Body != nil && w != nil && n_wh == 0
 //@   requires a.witVerifier == witV()
+//@   // metric counters are created by initMetrics (called by FeedBastion before the handler is served)
+//@   requires counterBastionIncomingRequest != nil && counterBastionIncomingResponse != nil && counterBastionIncomingPushback != nil
 //@   // the handler's log table files each log under the ID of its origin (established by FeedBastion from config.NewLog's IDs)
 //@   requires forall k string :: k in a.logs ==> a.logs[k].Origin == originFor(k)
 //@   modifies n_wo, wo_err, wo_h, n_gl, gl_err, gl_val, gl_h, n_set, set_err, set_arg, set_h, n_close, close_h, n_commit
